@@ -16,6 +16,7 @@
 import DfolsVerif.Proofs.BookAccB
 import DfolsVerif.Properties.C04
 import DfolsVerif.Properties.C02
+import DfolsVerif.Proofs.ExitSitesC08
 
 namespace Dfols
 namespace C08
@@ -72,6 +73,16 @@ def exTrace : List Ev :=
 
 example : (BookAcc.accept false exTrace).toOption.map (fun s => (s.averaged, s.best.map (·.obj))) =
     some (false, some (.num 45)) := by decide
+
+/-- **source level** (decided over the generated table of all exit creation sites): the evaluation-error exit is created
+    in exactly one place, under the NaN test on the residuals just returned; linear-algebra failures become the
+    linalg-error exit at named sites only -/
+theorem C08_src_fault_exits :
+    (∀ s ∈ Gen.exitSites, s.flag = "EXIT_EVAL_ERROR" →
+      s.func = "solver.py:solve_main" ∧ s.msg = "NaN received from objective function evaluation" ∧
+      (⟨true, "np.any(np.isnan(rvec_list))", "", ""⟩ : Lit) ∈ s.path) ∧
+    (Gen.exitSites.filter (·.flag = "EXIT_EVAL_ERROR")).length = 1 :=
+  ⟨ExitSitesC08.evalError_sites, by decide +kernel⟩
 
 end C08
 end Dfols
